@@ -59,3 +59,56 @@ async def run_tcp(cases):
     finally:
         for d in devs.values(): await d.listen(False)
     return out
+
+
+async def run_tcp_sequences(seqs):
+    """each sequence of cases (one class, one identity) on ONE connection to a fake device on loopback TCP, the operations one after the
+    other; per case, the frames the device received during that operation.  `now` as in run_tcp"""
+    ip = world.loopback_ip(9)
+    devs = {False: world.FakeDevice(ip, 9957), True: world.FakeDevice(ip, 10000)}
+    for d in devs.values(): await d.listen(True)
+    out = []
+    try:
+        for seq in seqs:
+            t2 = seq[0]["kind"] in world.TYPE2_KINDS; dev = devs[t2]
+            api = (world.SwitcherType2Api if t2 else world.SwitcherType1Api)(ip, seq[0]["id"], seq[0]["key"])
+            dev.log.clear(); dev.script[:] = []; dev.policy = lambda n, d: None
+            await api.connect()
+            try:
+                for c in seq:
+                    k0 = len(dev.log); dev.script[:] = [bytes.fromhex(r) for r in c["replies"]]
+                    try:
+                        r = await asyncio.wait_for(world.call_op(api, c["kind"], c["args"]), 5)
+                        res = world.show_response(c["kind"], r)
+                    except asyncio.TimeoutError: res = "exc:Timeout"
+                    except Exception as e: res = "exc:" + world.exc_name(e)
+                    for _ in range(3): await asyncio.sleep(0)
+                    frames = [d.hex() for _, d in dev.log[k0:]]
+                    if frames and len(frames[0]) >= 56: c["now"] = struct.unpack("<I", bytes.fromhex(frames[0][48:56]))[0]
+                    out.append("".join(f + "|" for f in frames) + res)
+            finally:
+                try: await api.disconnect()
+                except Exception: pass
+            for _ in range(3): await asyncio.sleep(0)
+    finally:
+        for d in devs.values(): await d.listen(False)
+    return out
+
+
+def odd_length_sequences(rnd, n):
+    """sequences of 2..4 accepted operations of one class on one identity whose replies carry a length field (bytes 2-3) that says less,
+    more or nothing about their size - the library does not read that field, a device's firmware may count differently"""
+    seqs = []
+    for _ in range(n):
+        t2 = rnd.random() < .4; ident = ("%06x" % rnd.randrange(1 << 24), "%02x" % rnd.randrange(256)); seq = []
+        for _ in range(rnd.randrange(2, 5)):
+            c = world.rand_op_case(rnd, rnd.choice([7, 8, 9]) if t2 else rnd.choice([1, 2, 3, 5, 11]), "valid", True); c["id"], c["key"] = ident
+            rs = []
+            for r in c["replies"]:
+                b = bytearray.fromhex(r)
+                if len(b) >= 4:
+                    n_ = max(0, len(b) + rnd.choice([0, -1, -2, -4, -8, -11, 4, 0 - len(b), 1 - len(b), 11 - len(b)])); b[2:4] = (n_ & 0xffff).to_bytes(2, "little")
+                rs.append(bytes(b).hex())
+            c["replies"] = rs; seq.append(c)
+        seqs.append(seq)
+    return seqs
